@@ -16,7 +16,7 @@ META = {
                    "record's own key, and encrypt/decrypt take nonce = generate_nonce_for_record(.., that key) and the cipher from "
                    "encryption_details; (4) RecordStore::get serves from disk only behind records.contains_key(k); the only other Some is the "
                    "cache hit; (5) every path through remove drops the key from the index, the cache and spawns the file delete. "
-                   "Not decided: byte equality of what fs / AES-GCM-SIV return; ordering of two tasks for the *same* key.",
+                   "Also: the completion notice registers the key on every path (mark_as_stored, and its handle_local_cmd arm always calls it; notices are sent with an awaited Sender::send, never try_send); read_from_disk answers a file that reads Ok with get_record_from_bytes' verdict only; the file is replaced whole and named by the injective hex encoding of the key. Not decided: byte equality of what fs / AES-GCM-SIV return; ordering of two tasks for the *same* key.",
     "not_decided": ["byte-level behaviour of std::fs and aes-gcm-siv", "completion order of two spawned tasks for the same key (the property restricts to different keys)"],
 }
 
